@@ -59,6 +59,10 @@ func splitByAddress[T Instruction](seq []T) [][]T {
 	seqs := make([][]T, 0, 1)
 	begin := 0
 
+	if len(seq) == 0 {
+		return seqs
+	}
+
 	for i := range seq[1:] {
 		if seq[i].End() == seq[i+1].Begin() {
 			continue
